@@ -134,6 +134,24 @@ def nested_family():
             if k == 2:
                 out.append(sym.Product((A, s_)))
                 out.append(sym.Product((s_, sym.Quotient(B, two))))
+    # n-ary products with several sign-carrying factors / several quotient factors on one level (sign parity and the
+    # collection of denominators in distribute_product)
+    one = sym.IntLiteral(1)
+    neg = lambda x: sym.Product((-1, x))
+    signed = [neg(A), neg(B), neg(two), sym.Sum((A, neg(one))), sym.Sum((neg(B), one)), A, two]
+    for k in (3, 4):
+        for ch in itertools.product(signed, repeat=k):
+            n = sum(1 for c in ch if c in (signed[0], signed[1], signed[2]))
+            if n >= 3 or (k == 3 and sum(1 for c in ch if isinstance(c, pmbl.Sum)) == 3):
+                out.append(sym.Product(ch))
+    out.append(sym.Product((-1, A, -1, B, -1, two)))
+    quots = [sym.Quotient(A, B), sym.Quotient(B, two), sym.Quotient(two, A), sym.Quotient(sym.Sum((A, B)), two)]
+    for q1, q2 in itertools.product(quots, repeat=2):
+        out.append(sym.Product((q1, q2)))
+        out.append(sym.Product((q1, q2, A)))
+        out.append(sym.Sum((B, sym.Product((q1, q2)))))
+    for q1, q2, q3 in itertools.permutations(quots, 3):
+        out.append(sym.Product((q1, q2, q3)))
     return out
 
 
